@@ -35,6 +35,10 @@ func runC10(c *core.Ctx) {
 	ruleSingleWrite(c, a)
 	c.Doc("C10.stream-owner", "the stream is only used through Message.Write/Read, Close, String; raw Read/Write only in ReadN/WriteN and Stream forwarders", 4)
 	ruleStreamOwner(c, a)
+	c.Doc("C10.write-whole", "WriteN hands the whole remaining buffer to each Write (one Write per message unless the transport is short)", 3)
+	ruleRetryLoop(c, "C10.write-whole", "WriteN", "Write")
+	c.Doc("C17.table", "a handler is registered in a free slot found and filled in one critical section (rule shared with C17)", 2)
+	ruleSlotFill(c, a, lc, "C17.table")
 	c.Doc("C10.order", "process dispatches synchronously between two reads", 2)
 	ruleProcessOrder(c, a)
 	c.Doc("C10.enqueue", "enqueue is non-blocking, under handlersMutex, only after the handler's own filter matched; every handler is offered every message", 2)
